@@ -34,6 +34,13 @@ Proof.
     + apply continuity_pt_filterlim. apply continuity_sin.
 Qed.
 
+Lemma sinc_arg_neq0 k D : k <> 0 -> D <> 0 -> sinc_arg k D <> 0.
+Proof.
+  intros Hk HD. pose proof PI_RGT_0 as Hpi. unfold sinc_arg. intros E.
+  apply (Rmult_integral_contrapositive_currified k D Hk HD).
+  assert (E2 : k * D = (k * D / 2 / PI) * (2 * PI)) by (field; lra). rewrite E2, E. ring.
+Qed.
+
 (* the source's scaling: sinc_np (k * D / 2 / PI) = sin (k D / 2) / (k D / 2) *)
 Lemma sinc_arg_val k D : k <> 0 -> D <> 0 ->
   sinc_np (sinc_arg k D) = 2 * sin (k * D / 2) / (k * D).
@@ -544,6 +551,20 @@ Example box_nonvacuous :
   CInt (fun u => img_all (as_point witness_base) [u] [mkPS (RtoC 1) [2] 0]) (1 - 3 / 2) (1 + 3 / 2)
        (Cmult (RtoC 3) (img_all (as_box witness_base [3]) [1] [mkPS (RtoC 1) [2] 0])).
 Proof. apply box_is_average_1d; [lra|]. constructor; [now exists 2|constructor]. Qed.
+
+(* ---------- polar form used by the Interval tie ---------- *)
+Lemma term_polar_eq c x s : term c x s = term_polar c x s.
+Proof.
+  unfold term, term_polar, modfac, amp, theta, modim, phasefac.
+  destruct (modul_eff c) as [[re [im|]]|]; destruct (phase c) as [p|];
+    rewrite ?Rplus_0_r, ?cos_plus, ?sin_plus, ?cos_plus, ?sin_plus; unfold cis; apply C_ext; simpl; ring.
+Qed.
+
+Theorem img_list_polar keeps c x l : img_list keeps c x l = img_polar keeps c x l.
+Proof.
+  revert keeps. induction l as [|s l IH]; intros [|b keeps]; try reflexivity.
+  cbn [img_list img_polar]. now rewrite IH, term_polar_eq.
+Qed.
 
 (* ---------- box_is_average in RInt form (statement as in the property) ---------- *)
 Theorem box_is_average_cos k x D : D <> 0 ->
